@@ -313,6 +313,9 @@ func r123(c *fw.Ctx) {
 	info := p.TypesInfo
 	// the switch that wraps fnVal in a ParenExpr
 	var wrapped map[string]bool
+	condsOf := map[*ast.CaseClause][]ast.Expr{}
+	opaque := map[*ast.CaseClause]bool{}
+	caseOf := map[string]*ast.CaseClause{}
 	inspectFunc(fd, func(m ast.Node) bool {
 		sw, ok := m.(*ast.TypeSwitchStmt)
 		if !ok || wrapped != nil {
@@ -321,10 +324,28 @@ func r123(c *fw.Ctx) {
 		for _, cl := range sw.Body.List {
 			cc := cl.(*ast.CaseClause)
 			paren := false
+			var stack []ast.Node
 			for _, st := range cc.Body {
 				ast.Inspect(st, func(k ast.Node) bool {
+					if k == nil {
+						stack = stack[:len(stack)-1]
+						return true
+					}
+					stack = append(stack, k)
 					if l, ok := k.(*ast.CompositeLit); ok && namedIs(info.TypeOf(l), "go/ast", "ParenExpr") {
 						paren = true
+						// conditions the wrap sits under, inside the case
+						for _, anc := range stack {
+							if is, ok := anc.(*ast.IfStmt); ok && is.Body.Pos() <= l.Pos() && l.End() <= is.Body.End() {
+								condsOf[cc] = append(condsOf[cc], is.Cond)
+							} else if ok {
+								condsOf[cc] = append(condsOf[cc], &ast.UnaryExpr{Op: token.NOT, X: is.Cond})
+							}
+							switch anc.(type) {
+							case *ast.SwitchStmt, *ast.TypeSwitchStmt, *ast.ForStmt, *ast.RangeStmt:
+								opaque[cc] = true
+							}
+						}
 					}
 					return true
 				})
@@ -335,6 +356,7 @@ func r123(c *fw.Ctx) {
 				}
 				for _, e := range cc.List {
 					wrapped[strings.TrimPrefix(exprString(e), "*types.")] = true
+					caseOf[strings.TrimPrefix(exprString(e), "*types.")] = cc
 				}
 			}
 		}
@@ -346,6 +368,54 @@ func r123(c *fw.Ctx) {
 	}
 	for _, t := range []string{"Pointer", "Chan"} {
 		c.Check(wrapped[t], rule, "matchTypeCast/paren/"+t, fd.Pos(), "a conversion to a *types.%s must parenthesise the type: its syntax starts with an operator token (`*T(x)` dereferences, `<-chan T(x)` receives, `chan T(x)` declares)", t)
+	}
+	// the wrap may depend only on the channel direction, and must happen for the receive-only direction
+	// (Go spec, Conversions: `<-chan int(c)` is `<-(chan int(c))`); a pointer is wrapped unconditionally
+	for _, t := range []string{"Pointer", "Chan"} {
+		cc := caseOf[t]
+		if cc == nil {
+			continue
+		}
+		key := "matchTypeCast/paren/" + t + "/when-needed"
+		if opaque[cc] {
+			c.Undecided(rule, key, cc.Pos(), "the parenthesisation sits inside a nested switch or loop the rule does not evaluate")
+			continue
+		}
+		ok, und := true, ""
+		for _, cond := range condsOf[cc] {
+			neg := false
+			e := unparen(cond)
+			if u, isU := e.(*ast.UnaryExpr); isU && u.Op == token.NOT {
+				neg, e = true, unparen(u.X)
+			}
+			be, isB := e.(*ast.BinaryExpr)
+			if !isB || (be.Op != token.EQL && be.Op != token.NEQ) || t != "Chan" {
+				und = exprString(cond)
+				continue
+			}
+			call, isC := unparen(be.X).(*ast.CallExpr)
+			dir := constOf(info, be.Y)
+			if !isC || dir == nil || !isFunc(callee(info, call), "go/types", "Chan.Dir") {
+				und = exprString(cond)
+				continue
+			}
+			isRecv := exprString(be.Y) == "types.RecvOnly"
+			if v, okc := constInt(info, be.Y); okc {
+				isRecv = v == int64(types.RecvOnly)
+			}
+			holds := (be.Op == token.EQL) == isRecv // value of the condition when Dir() == RecvOnly
+			if neg {
+				holds = !holds
+			}
+			if !holds {
+				ok = false
+			}
+		}
+		if und != "" {
+			c.Undecided(rule, key, cc.Pos(), "the parenthesisation of a %s conversion depends on `%s`, which the rule cannot evaluate", t, und)
+			continue
+		}
+		c.Check(ok, rule, key, cc.Pos(), "a conversion to a receive-only channel type (and to every pointer type) must be parenthesised: `<-chan T(x)` parses as a receive from `chan T(x)`")
 	}
 	// the printer fork parenthesises func types in call position
 	pp := c.Pkg("internal/go/printer")
